@@ -23,7 +23,7 @@ KF = {"linkat-fail-size-crossing-double-intsync": "c13-linkat-fail-size-crossing
       "batchlock-leak-newsyncbatch-failure": "c13-batchlock-leak-newsyncbatch-failure"}
 
 
-def mkjob(n, cfg, ops, sizes, salt, hang=12000):
+def mkjob(n, cfg, ops, sizes, salt, hang=60000):
     return {"cfg": cfg, "n": n, "salt": salt, "hang_ms": hang,
             "vars": [{"a": a + 1, "v": 1, "total": sizes[a % len(sizes)], "attr": 0, "pat": 1, "z": False} for a in range(n)],
             "ops": ops}
@@ -44,8 +44,11 @@ def jobs_for(tier, seed):
                 [300, 70000, 1500, 700, 2500, 150], 33)
     many_n = 300 if tier == "thorough" else 40
     many = mkjob(many_n, dict(lin, cnt=16, szlim=20000, interval=3),
-                 [{"kind": "par", "as": list(range(1, many_n + 1))}], [300, 700, 1500, 2500, 150, 3900], 34, hang=30000)
-    out = [("combined-mixed", j1), ("combined-size", j2), ("generic", gen), ("many-concurrent", many)]
+                 [{"kind": "par", "as": list(range(1, many_n + 1))}], [300, 700, 1500, 2500, 150, 3900], 34, hang=90000)
+    # plain files only (every blob above the combined threshold): open(O_TMPFILE) write linkat close, one after the other
+    files = mkjob(7, dict(lin, thr=1024), [{"kind": "put", "a": a} for a in (1, 2, 3, 4, 5, 6)] + [{"kind": "del", "a": 3}, {"kind": "put", "a": 3}, {"kind": "put", "a": 7}],
+                  [5000, 9000, 1500, 70000, 2500, 4000, 1100], 35)
+    out = [("combined-mixed", j1), ("combined-size", j2), ("generic", gen), ("linux-files", files), ("many-concurrent", many)]
     if tier == "thorough":
         r = random.Random(seed * 104729 + 13)
         for i in range(4):
@@ -67,7 +70,7 @@ def run(ck):
         cfg, expect = job
         if expect is None:
             return ck.tlc_model("FSTreeSysMC", cfg, timeout=2700, workers=5, deadlock=True)
-        r = ck.tlc("FSTreeSysMC", cfg, timeout=900, workers=2, count=False, deadlock=True)
+        r = ck.tlc("FSTreeSysMC", cfg, timeout=2400, workers=2, count=False, deadlock=True)
         ck.log("TLC FSTreeSysMC/%s (deviation switch on): %s" % (cfg, r.summary()))
         got = r.name if r.kind == "invariant" else r.kind
         if got != expect:
@@ -94,7 +97,7 @@ def run(ck):
         plan = [(rep["tag"], rep["job"], rep.get("inject") or None)]
     else:
         jobs = jobs_for(ck.tier, ck.seed)
-        clean = fu.pmap(lambda tj: fu.run_sys_job(ck, binp, tj[1], tj[0] + "-clean", timeout=120), jobs, workers=fu.ncpu_share())
+        clean = fu.pmap(lambda tj: fu.run_sys_job(ck, binp, tj[1], tj[0] + "-clean", timeout=500), jobs, workers=fu.ncpu_share())
         plan = []
         r = random.Random(ck.seed * 31 + 5)
         for (tag, job), (ev, counts, start, _) in zip(jobs, clean):
@@ -122,7 +125,7 @@ def run(ck):
                                  ["%s:error=EIO:when=%d" % (c1, k1), "%s:error=ENOSPC:when=%d" % (c2, k2)]))
     ck.log("%d worker runs planned" % len(plan))
 
-    runs = fu.pmap(lambda p: fu.run_sys_job(ck, binp, p[1], p[0], inject=p[2], timeout=150), plan, workers=fu.ncpu_share())
+    runs = fu.pmap(lambda p: fu.run_sys_job(ck, binp, p[1], p[0], inject=p[2], timeout=500), plan, workers=fu.ncpu_share())
     events, index = [], []
     hit_tree, misfire, nofire = 0, 0, 0
     classes, exits = set(), {}
@@ -195,6 +198,6 @@ def run(ck):
     ck.assumptions += [
         "faults are errors returned by the system call with no side effect (strace error injection: the call is not executed); short writes are modelled (incomplete write) but not injected",
         "a fault that lands on a call of the Go runtime or of the harness (not on a tree file) is discarded, not judged",
-        "hang = the worker's watchdog (12-30 s) fired; panic = exit status 2",
+        "hang = the worker's watchdog (60-90 s) fired; panic = exit status 2",
         "`affected` = the operation's own call failed, or a call on the batch file it was written to, or (open of a new batch) one operation per failed open",
     ]
